@@ -153,12 +153,30 @@ func (f *Frame) canInline(callee *ssa.Function, full string) bool {
 		return false
 	}
 	n := 0
+	nloops := map[*ssa.BasicBlock]bool{}
 	for _, b := range callee.Blocks {
 		for _, s := range b.Succs {
 			if s.Dominates(b) {
-				return false // loop
+				nloops[s] = true
 			}
 		}
+	}
+	if len(nloops) > 0 {
+		// a helper with loops is executed in place only if the contract of the function under
+		// verification has loop clauses left for all of them (the loop was moved out of it),
+		// and only for a helper of the same package called directly by that function
+		root := f.rootFrame()
+		if f != root || !root.top || root.fc == nil || funcPkgPath(callee) != funcPkgPath(root.fn) || callee.Parent() != nil {
+			return false
+		}
+		for i := 0; i < len(nloops); i++ {
+			sp := root.fc.Loops[root.ownLoops+root.migrated+i]
+			if sp == nil || len(sp.Invariants) == 0 {
+				return false
+			}
+		}
+	}
+	for _, b := range callee.Blocks {
 		for _, ins := range b.Instrs {
 			if _, ok := ins.(*ssa.DebugRef); !ok {
 				n++
@@ -1483,6 +1501,13 @@ func (f *Frame) siteOperandMatches(ins ssa.Instruction, target string) bool {
 	name := target
 	if i := strings.LastIndex(target, "."); i >= 0 {
 		name = target[i+1:]
+	}
+	// a store through a pointer that is known to be the address of field F (e.g. &x.F handed
+	// to a helper that is executed in place) is a store to F
+	if x, ok := ins.(*ssa.Store); ok {
+		if v, ok := f.env[x.Addr]; ok && v.Addr != nil && v.Addr.Kind == aField && strings.HasSuffix(v.Addr.Region, "."+name) {
+			return true
+		}
 	}
 	for d := 0; d < 4 && op != nil; d++ {
 		switch x := op.(type) {
